@@ -331,7 +331,7 @@ func (cmd *mainCmd) Run(args []string) error {
 			continue
 		}
 
-		if opts.SkipGenerated && checkGeneratedCode(f) {
+		if opts.SkipGenerated && isGeneratedFile(fset, f) {
 			log.Printf("generated file %s: skipped", filename)
 			continue
 		}
@@ -453,6 +453,33 @@ func checkGeneratedCode(f *ast.File) bool {
 	for _, comm := range f.Doc.List {
 		if strings.Contains(comm.Text, "@generated") {
 			return true
+		}
+	}
+	return false
+}
+
+// isGeneratedFile reports whether f is generated code. Besides what
+// checkGeneratedCode looks at, it recognises a package comment that the parser
+// did not attach to the package clause: the parser goes by the line numbers
+// the file reports, and a //line directive between the comment and the
+// package clause (goyacc and cgo output have one) changes those.
+func isGeneratedFile(fset *token.FileSet, f *ast.File) bool {
+	if checkGeneratedCode(f) {
+		return true
+	}
+	if f.Doc != nil {
+		return false
+	}
+
+	pkgLine := fset.PositionFor(f.Package, false).Line
+	for _, cg := range f.Comments {
+		if cg.End() >= f.Package || fset.PositionFor(cg.End(), false).Line+1 != pkgLine {
+			continue
+		}
+		for _, comm := range cg.List {
+			if strings.Contains(comm.Text, "@generated") {
+				return true
+			}
 		}
 	}
 	return false
